@@ -217,3 +217,54 @@ func VerifC06TxManager() {
 	verifObserve("c06", delivered[0], delivered[1], expired, requestedAgain[0], requestedAgain[1])
 	verifReach("done")
 }
+
+func init() {
+	verifHarnesses["VerifC06Retry"] = VerifC06Retry
+}
+
+// VerifC06Retry (sequential): 1-3 transactions in one map bucket are announced by peer A (asked)
+// and by peer B (remembered); A never delivers. After the request window, B polls for retries with
+// a symbolic maximum: every transaction comes back for B exactly once over the polls of that
+// window sequence, none is lost and none is handed out twice without a new timeout.
+func VerifC06Retry() {
+	timeout := 40 * time.Millisecond
+	m := NewTxManager(timeout)
+	ctx := ctxbg()
+	a, b := uuid.New(), uuid.New()
+	n := 1 + pick("txs", 3)
+	first := txWithBucket(1, -1)
+	txs := []*wire.MsgTx{first}
+	for k := 1; k < n; k++ {
+		txs = append(txs, txWithBucket(1+k, int(first.TxHash()[0])))
+	}
+	for _, tx := range txs {
+		r, _ := m.AddTxID(ctx, a, *tx.TxHash())
+		verifAssert(r, "first-announcement-not-requested")
+	}
+	for _, tx := range txs {
+		r, _ := m.AddTxID(ctx, b, *tx.TxHash())
+		verifAssert(!r, "second-announcement-requested-while-outstanding")
+	}
+	got := make([]int, n)
+	max := 1 + pick("max", 3)
+	polls := 0
+	for round := 0; round < n+1; round++ {
+		verifAdvanceClock(int64(timeout))
+		list, err := m.GetTxRequests(ctx, b, max)
+		verifAssert(err == nil, "get-tx-requests-error")
+		polls++
+		for _, h := range list {
+			for k := range txs {
+				if h.Equal(txs[k].TxHash()) {
+					got[k]++
+				}
+			}
+		}
+	}
+	for k := range txs {
+		verifAssert(got[k] >= 1, "timed-out-transaction-never-offered-to-other-announcer")
+		verifAssert(got[k] <= 1, "transaction-offered-twice-to-the-same-announcer")
+	}
+	verifObserve("retry", n, max, polls)
+	verifReach("done")
+}
